@@ -8,6 +8,13 @@ Decided (necessary conditions visible in the shape of the two generators):
       skip, the collection is fresh per round, and a stored source exception is re-raised after the cleanup.
   R3  the flush sorts the whole buffer by the caller's key, yields every buffered element, resets the buffer only
       afterwards, and every non-sentinel item of the merged stream is either buffered or yielded.
+  R4  merge_generators, ownership of the pending-task table (the dict that holds one `anext` task per source): inside the
+      round loop an entry leaves the table only (a) by a keyed removal whose key is derived from this round's
+      `asyncio.wait` result (directly, or through the list the fetched values were collected in), or (b) by a removal
+      that selects on the run state of the tasks (`.done()` / `.cancelled()`), and then only where no suspension point
+      (`yield` / `await` other than the wait itself) lies between the wait and the removal.  After a suspension "done"
+      no longer means "reported by the wait and examined": a task that finished while the consumer held the yielded item
+      would be dropped with its item, its source's later items, or its error.
 Not decided: the timing of the debounce window, fairness of asyncio.wait, behaviour when the consumer closes the
 generator early, sources that raise BaseException.
 """
@@ -16,7 +23,7 @@ from __future__ import annotations
 
 import ast
 
-from ..astx import assigned_names, atoms, call_name, dotted, expand, facts_at, last
+from ..astx import assigned_names, atoms, call_name, dep_slice, dotted, expand, facts_at, is_suspension, last
 from ..cfg import CFG, Node, exprs_in_node
 from ..index import repo_root, AnchorError, ancestors, walk_shallow
 from ..selftest import Twin
@@ -37,6 +44,16 @@ EXPLANATION = (
     "append to the function exit or the next round passes that loop (paths that exist only under an opt-in keyword parameter "
     "defaulting to False are reported as an observation); a handler that catches a source's exception leads to a `raise` on every "
     "normal path to the exit (path-sensitive on `<stored exception> is None`).  "
+    "R4 (ownership of the pending-task table of merge_generators = the local dict whose entries are create_task(...) results and "
+    "whose values are handed to asyncio.wait): every removal that lies inside the round loop (reachable from the wait and able to "
+    "reach it again) is classified by what selects the removed entries.  A keyed removal (pop / del) must take its key from this "
+    "round's wait result, directly or through the list the fetched values were collected in (may-dependence slice that stops at the "
+    "table itself); a key that does not depend on which tasks finished removes a task whose outcome nobody took.  A removal that "
+    "selects on the tasks' run state (`.done()` / `.cancelled()` in the filter of a rebinding comprehension, in the slice of the key, "
+    "or in a test that guards the removal) must not be reachable from a suspension point (`yield`, `await`, async for/with other than "
+    "the wait) without passing the wait again: between the wait and the first suspension `done()` equals membership in the wait's "
+    "result, after a suspension it also covers tasks that finished meanwhile and were never examined, so their item, their source's "
+    "later items, or their error are lost.  Other bulk removals inside the round loop are not understood (analysis error).  "
     "Not decided: timing of the window, which completion asyncio.wait reports first, early close by the consumer."
 )
 TRUSTED = ["CPython ast", "asyncio.wait / Task.result semantics", "sa.cfg statement CFG (finally bodies duplicated per continuation)"]
@@ -493,6 +510,139 @@ def _r2(chk, m, fn) -> None:
                    instance="source-error-reraised", reason="the generator can finish normally after a source raised (error swallowed)", path=_lines(p))
 
 
+# ------------------------------------------------------------------------------------------- R4
+
+_TASK_SPAWN = ("create_task", "ensure_future")
+_STATE_READS = ("done", "cancelled")
+_FILL = ("append", "appendleft", "add", "put_nowait", "insert", "extend")
+
+
+def _spawns(v: ast.AST | None) -> bool:
+    return isinstance(v, ast.Call) and last(call_name(v)) in _TASK_SPAWN
+
+
+def _task_tables(fn: ast.AST) -> list[str]:
+    """Locals that hold the pending tasks: `T[k] = create_task(...)` or `T = {k: create_task(...) for ...}`."""
+    names: set[str] = set()
+    for s in walk_shallow(fn):
+        if isinstance(s, ast.Assign):
+            tgts, v = list(s.targets), s.value
+        elif isinstance(s, ast.AnnAssign) and s.value is not None:
+            tgts, v = [s.target], s.value
+        else:
+            continue
+        for t in tgts:
+            if isinstance(t, ast.Subscript) and isinstance(t.value, ast.Name) and _spawns(v):
+                names.add(t.value.id)
+            if isinstance(t, ast.Name) and isinstance(v, ast.DictComp) and _spawns(v.value):
+                names.add(t.id)
+    return sorted(names)
+
+
+def _flow_slice(fn: ast.AST, starts: list[ast.AST], stop: set[str]) -> list[ast.AST]:
+    """May-dependence of the start expressions: dep_slice, continued through in-place fills (`L.append(x)` makes L depend on x)."""
+    fills: dict[str, list[ast.AST]] = {}
+    for c in walk_shallow(fn):
+        if isinstance(c, ast.Call) and isinstance(c.func, ast.Attribute) and isinstance(c.func.value, ast.Name) and c.func.attr in _FILL:
+            fills.setdefault(c.func.value.id, []).extend(c.args)
+    exprs: list[ast.AST] = []
+    seen_e: set[int] = set()
+    seen_n: set[str] = set()
+    todo = list(starts)
+    while todo:
+        sl = dep_slice(fn, todo.pop(), stop=stop)
+        for x in sl.exprs:
+            if id(x) not in seen_e:
+                seen_e.add(id(x))
+                exprs.append(x)
+        for nm in sorted(sl.locals | sl.leaves):
+            if nm not in seen_n and nm not in stop:
+                seen_n.add(nm)
+                todo.extend(fills.get(nm, []))
+    return exprs
+
+
+def _reads_task_state(exprs: list[ast.AST]) -> ast.Call | None:
+    for e in exprs:
+        for c in ast.walk(e):
+            if isinstance(c, ast.Call) and isinstance(c.func, ast.Attribute) and c.func.attr in _STATE_READS and not c.args:
+                return c
+    return None
+
+
+def _r4(chk, m, fn) -> None:
+    cfg = CFG(fn)
+    tables = _task_tables(fn)
+    if len(tables) != 1:
+        raise AnchorError(f"C29.R4: cannot bind the pending-task table of merge_generators (locals filled with create_task results: {tables})")
+    tab = tables[0]
+    chk.floor("C29.R4", "pending-task tables (local dict of create_task results)", len(tables), 1)
+    waits = [c for c in walk_shallow(fn) if isinstance(c, ast.Call) and last(call_name(c)) == "wait"
+             and any(isinstance(x, ast.Name) and x.id == tab for a in list(c.args) + [k.value for k in c.keywords] for x in ast.walk(expand(a, c)))]
+    wait_nodes = [n for c in waits for n in cfg.node_of_containing(c)]
+    chk.floor("C29.R4", "waits on the values of the pending-task table", len(wait_nodes), 1)
+    after_wait = cfg.reach(wait_nodes, include_starts=False)
+
+    def in_round(n: Node) -> bool:
+        return n in after_wait and any(w in cfg.reach([n], include_starts=False) for w in wait_nodes)
+
+    susp = [n for n in cfg.nodes if n.ast is not None and n not in wait_nodes and in_round(n)
+            and (isinstance(n.ast, (ast.AsyncFor, ast.AsyncWith)) or any(is_suspension(x) for x in exprs_in_node(n)))]
+    chk.floor("C29.R4", "suspension points inside the round loop other than the wait (yield of a merged item)", len(susp), 1)
+
+    # every way an entry can leave the table inside the round loop: (node, kind, key expression | None, selecting expression | None)
+    exits: list[tuple[Node, str, ast.AST | None, ast.AST | None]] = []
+    for n in cfg.nodes:
+        if n.ast is None:
+            continue
+        found: list[tuple[str, ast.AST | None, ast.AST | None]] = []
+        for c in _calls_in(n):
+            if isinstance(c.func, ast.Attribute) and dotted(c.func.value) == tab:
+                if c.func.attr == "pop" and c.args:
+                    found.append(("keyed", c.args[0], None))
+                elif c.func.attr in ("pop", "popitem", "clear"):
+                    found.append(("bulk", None, None))
+        if n.kind == "stmt" and isinstance(n.ast, ast.Delete):
+            for t in n.ast.targets:
+                if isinstance(t, ast.Subscript) and dotted(t.value) == tab:
+                    found.append(("keyed", t.slice, None))
+                elif isinstance(t, ast.Name) and t.id == tab:
+                    found.append(("bulk", None, None))
+        if n.kind == "stmt" and isinstance(n.ast, (ast.Assign, ast.AnnAssign, ast.AugAssign)) and getattr(n.ast, "value", None) is not None:
+            tg = n.ast.targets if isinstance(n.ast, ast.Assign) else [n.ast.target]
+            if any(isinstance(x, ast.Name) and x.id == tab for t in tg for x in ([t] if isinstance(t, ast.Name) else (t.elts if isinstance(t, (ast.Tuple, ast.List)) else []))):
+                found.append(("bulk", None, n.ast.value))
+        if found and in_round(n):
+            exits += [(n, k, key, sel) for k, key, sel in found]
+    chk.floor("C29.R4", "removals from the pending-task table inside the round loop", len(exits), 1)
+
+    for n, kind, key, sel in exits:
+        guard_exprs = [ast.parse(text, mode="eval").body for text, _pol in sorted(facts_at(cfg, n, expand_locals=False))]
+        starts = [x for x in (key, sel) if x is not None]
+        sl = _flow_slice(fn, starts, {tab}) if starts else []
+        state = _reads_task_state(sl + guard_exprs)
+        what = ast.unparse(n.ast if n.kind == "stmt" else (key or n.ast))[:90].replace("\n", " ")
+        if state is not None:
+            offenders = [s for s in susp if n in cfg.reach([s], blocked=wait_nodes, include_starts=False)]
+            p = cfg.path(offenders[0], n, blocked=wait_nodes) if offenders else []
+            chk.ob("C29.R4", f"entries are removed from `{tab}` on `{ast.unparse(state)}` only before the first suspension point that follows the wait",
+                   not offenders, m=m, node=n.ast, fn=fn, instance="prune-on-done-after-suspension" if offenders else "prune-on-done",
+                   reason=(f"`{what}` drops every finished task and is reachable from the suspension at line {offenders[0].line if offenders else 0} without "
+                           f"passing the wait again: a task that finishes while the consumer holds the yielded item is `done()` here although this round's "
+                           f"wait did not report it and nothing read its `.result()`; its item, its source's later items (no new task is scheduled), or its "
+                           f"error are lost.  Remove an entry where its own outcome is taken, or prune before the first yield/await after the wait"),
+                   path=_lines(p))
+            continue
+        if kind == "bulk":
+            raise AnchorError(f"C29.R4: `{what}` empties or rebinds the pending-task table inside the round loop without selecting on the tasks' state "
+                              "(unrecognised removal idiom)")
+        from_wait = any(c is w for e in sl for c in ast.walk(e) for w in waits)
+        chk.ob("C29.R4", f"a keyed removal from `{tab}` names a task that this round's wait reported finished", from_wait, m=m, node=n.ast, fn=fn,
+               instance="removal-key" if from_wait else "removal-key-not-from-wait",
+               reason=(f"the key of `{what}` does not depend on the result of the wait (nor on the list the fetched values were collected in): the removed entry "
+                       "is a task whose outcome nobody has taken, so its item or error is lost and its source is never polled again"))
+
+
 def _is_optin_flag(fn: ast.AST, cfg: CFG, name: str, optin: set[str]) -> bool:
     if not optin or name in _params(fn):
         return False
@@ -520,6 +670,7 @@ def run(chk) -> None:
     _r1_r3(chk, m, fn)
     m2, mg = repo.func(f"{MOD}:merge_generators")
     _r2(chk, m2, mg)
+    _r4(chk, m2, mg)
     # the foreign fact R1 talks about: who sets it
     try:
         _mm, loop_fn = repo.func(f"{MOD}:Debouncer._loop")
@@ -624,6 +775,26 @@ _BROKEN_RESET_FIRST = _FIXED.replace("            for buffered_item in buffer:\n
                                      "            pending, buffer = buffer, []\n            for buffered_item in buffer:\n                yield buffered_item\n")
 _BROKEN_DROP_NONE = _FIXED.replace("            if flushed:\n", "            if actual_item is None:\n                continue\n            if flushed:\n")
 
+_REARM = "                if active_gen is not None:\n                    next_item_tasks[task_index] = asyncio.create_task(anext(active_gen))\n"
+_PRUNE_REBIND = ("            next_item_tasks = {\n                index: task\n                for index, task in next_item_tasks.items()\n"
+                 "                if not task.done()\n            }\n")
+_PRUNE_DEL_LOOP = ("            for stale_index, stale_task in list(next_item_tasks.items()):\n                if stale_task.done():\n"
+                   "                    del next_item_tasks[stale_index]\n")
+_YIELD_LOOP = '''            for task_index, value in completed_results:
+                # Remove the finished task before yielding
+                next_item_tasks.pop(task_index, None)
+                yield value
+                # Schedule the next item fetch for this generator
+                active_gen: AsyncGenerator[T, None] | None = active_generators.get(
+                    task_index
+                )
+                if active_gen is not None:
+                    next_item_tasks[task_index] = asyncio.create_task(anext(active_gen))
+'''
+_YIELD_LOOP_SEED = _YIELD_LOOP.replace("                # Remove the finished task before yielding\n                next_item_tasks.pop(task_index, None)\n", "") + (
+    "            # Finished tasks were consumed above; keep only the ones still pending\n" + _PRUNE_REBIND)
+_YIELD_LOOP_RENAMED = _YIELD_LOOP.replace("for task_index, value in", "for slot, item in").replace("yield value", "yield item").replace("task_index", "slot")
+
 TWINS = [
     # R1 — whole-block variants (anchor = current text of the buffering/flush part, read at import time)
     Twin("revert of the repair: passthrough guarded by debouncer.is_complete", _P, _BODY_OLD, _PINNED, "C29.R1"),
@@ -668,4 +839,21 @@ TWINS = [
          "                next_item_tasks.pop(task_index, None)\n                if task_index in active_generators:\n                    yield value\n", "C29.R2"),
     Twin("benign: exception re-raised with a bare name check", _P, "    if exception_to_raise is not None:\n        raise exception_to_raise\n", "    if not (exception_to_raise is None):\n        raise exception_to_raise\n", None),
     Twin("benign: yield before removing the finished task", _P, "                next_item_tasks.pop(task_index, None)\n                yield value\n", "                yield value\n                next_item_tasks.pop(task_index, None)\n", None),
+    # R4 — ownership of the pending-task table
+    Twin("seed form: finished tasks pruned by a rebinding comprehension after the yield loop (keyed pops kept)", _P, _REARM, _REARM + _PRUNE_REBIND, "C29.R4"),
+    Twin("seed form, exact: the pop before the yield is replaced by the end-of-round prune", _P, _YIELD_LOOP, _YIELD_LOOP_SEED, "C29.R4"),
+    Twin("variant: `del` of every entry whose task is done(), in a loop after the yield loop", _P, _REARM, _REARM + _PRUNE_DEL_LOOP, "C29.R4"),
+    Twin("variant: keys of done() tasks collected first, popped right after the yield", _P, "                next_item_tasks.pop(task_index, None)\n                yield value\n",
+         "                next_item_tasks.pop(task_index, None)\n                yield value\n                for stale in [i for i, t in next_item_tasks.items() if t.done()]:\n                    next_item_tasks.pop(stale)\n", "C29.R4"),
+    Twin("variant: prune at the top of the round, before the wait (tasks finished during the previous yield)", _P, "            done, _ = await asyncio.wait(",
+         "            next_item_tasks = {k: t for k, t in next_item_tasks.items() if not t.done()}\n            if not next_item_tasks:\n                break\n            done, _ = await asyncio.wait(", "C29.R4"),
+    Twin("exhausted source: a slot that does not come from the wait result is removed", _P,
+         "                        next_item_tasks.pop(task_index, None)\n                        active_generators.pop(task_index, None)\n",
+         "                        next_item_tasks.pop(len(active_generators) - 1, None)\n                        active_generators.pop(task_index, None)\n", "C29.R4"),
+    Twin("benign: the same prune between the examination of `done` and the yield loop (no suspension since the wait)", _P,
+         "            if stopped_on_first_completion:\n                break\n            for task_index, value in completed_results:\n",
+         "            if stopped_on_first_completion:\n                break\n" + _PRUNE_REBIND + "            for task_index, value in completed_results:\n", None),
+    Twin("benign: `del` instead of pop for the entry whose value is about to be yielded", _P, "                next_item_tasks.pop(task_index, None)\n                yield value\n",
+         "                del next_item_tasks[task_index]\n                yield value\n", None),
+    Twin("benign: yield loop with its own loop variables (key reaches the wait only through the collected list)", _P, _YIELD_LOOP, _YIELD_LOOP_RENAMED, None),
 ]
